@@ -1118,7 +1118,7 @@ def tracer_cases(ctx, rng):
             except Exception as e:
                 v = "EXC:" + type(e).__name__
             if nm == "solutions" and not isinstance(v, str):
-                v = [(type(p).__name__, float(p.theta0), float(p.tof), float(p.path_length),
+                v = [(type(p).__name__, float(getattr(p, "theta0", float("nan"))), float(p.tof), float(p.path_length),
                       tuple(np.round(np.asarray(p.emitted_direction, dtype=float), 15)),
                       tuple(np.round(np.asarray(p.received_direction, dtype=float), 15))) for p in v]
             else:
@@ -1148,6 +1148,17 @@ def tracer_cases(ctx, rng):
          ["n0", "rho", "phi", "exists", "solutions"],
          [UniformIce(1.5), UniformIce(1.78)]),
     ]
+    try:
+        # the layered-ice tracer (pyrex.custom.layered_ice): every constructor-declared attribute is assigned
+        from pyrex.custom.layered_ice import LayeredRayTracer, LayeredIce
+        lay = [LayeredIce([UniformIce(1.35, valid_range=(-100, 0), index_above=1, index_below=1.6),
+                           UniformIce(1.6, valid_range=(-1000, -100), index_above=1.35, index_below=None)]),
+               LayeredIce([UniformIce(1.4, valid_range=(-150, 0), index_above=1, index_below=1.7),
+                           UniformIce(1.7, valid_range=(-1000, -150), index_above=1.4, index_below=None)])]
+        specs.append((LayeredRayTracer, lambda fp, tp, ice: LayeredRayTracer(fp, tp, ice),
+                      ["n0", "rho", "phi", "valid_ice_model", "exists", "solutions"], lay))
+    except Exception as e:
+        ctx.extra["layered_tracer_probe"] = "not available: %s: %s" % (type(e).__name__, e)
     for cls, make, names, ices in specs:
         for trial in range(ctx.n(3, 25) if cls is SpecializedRayTracer else (ctx.n(2, 10) if cls is BasicRayTracer else ctx.n(8, 60))):
             pts = lambda: np.array([rng.randint(-300, 300), rng.randint(-300, 300), -rng.randint(20, 900)], dtype=float)
